@@ -42,6 +42,7 @@ struct Fix {
     seq: Archive,                  // the one sequential handle all baselines come from
     src_equal: u64,                // baseline == bytes given to the builder (information only; that is C01's subject)
     src_differs: u64,
+    history_dep: Vec<String>,      // names whose sequential answer on a used thread differed from the answer on a fresh thread
 }
 
 fn variant(e: &Error) -> String {
@@ -86,7 +87,7 @@ fn build_fix(dir: &Path, tag: &str, files: Vec<Pending>) -> Result<Fix, String> 
     b.build(&path).map_err(|e| format!("build of fixture {tag} failed: {e}"))?;
     let mut seq = Archive::open(&path).map_err(|e| format!("open of fixture {tag} failed: {e}"))?;
     let listing: Vec<String> = seq.list().map_err(|e| format!("list of fixture {tag} failed: {e}"))?.into_iter().map(|e| e.name).collect();
-    let mut fx = Fix { tag: tag.to_string(), path, names: files.iter().map(|f| f.name.clone()).collect(), listing, base: HashMap::new(), seq, src_equal: 0, src_differs: 0 };
+    let mut fx = Fix { tag: tag.to_string(), path, names: files.iter().map(|f| f.name.clone()).collect(), listing, base: HashMap::new(), seq, src_equal: 0, src_differs: 0, history_dep: Vec::new() };
     for f in &files {
         match fx.expect(&f.name) {
             Exp::Ok(d) if *d == f.data => fx.src_equal += 1,
@@ -161,7 +162,21 @@ fn build_damaged_fix(dir: &Path, rng: &mut Rng) -> Result<Fix, String> {
                 return Err(format!("D: the damage to {nme} does not show in a sequential read"));
             }
         } else if !intact {
-            return Err(format!("D: the untouched member {nme} no longer reads back"));
+            // this thread has just seen reads of damaged members fail. The reference answer for a name is a function of
+            // (archive, name): ask again with a fresh handle on a fresh thread. Intact there = the answer depends on what the
+            // reading thread did before (reported as a violation of its own, after C09-r6m1); damaged there too = the
+            // fixture is not what it was meant to be
+            let (p2, n2) = (fx.path.clone(), nme.clone());
+            let fresh = std::thread::spawn(move || Archive::open(&p2).and_then(|mut a| a.read_file(&n2))).join();
+            match fresh {
+                Ok(Ok(d)) if Some(&d) == truth.get(&nme) => {
+                    fx.history_dep.push(format!("{nme}: {} on the thread that had read the damaged members before, intact ({} bytes) with a fresh handle on a fresh thread", match &e { Exp::Ok(b) => format!("Ok({} other bytes)", b.len()), Exp::Err(v) => format!("Err({v})") }, d.len()));
+                    fx.src_equal += 1;
+                    fx.base.insert(nme, Exp::Ok(Arc::new(d)));
+                    continue;
+                }
+                _ => return Err(format!("D: the untouched member {nme} no longer reads back")),
+            }
         }
         if intact { fx.src_equal += 1 } else { fx.src_differs += 1 }
         fx.base.insert(nme, e);
@@ -1288,6 +1303,19 @@ fn main() {
         }
     }
 
+    // what the fixture phase saw of reads depending on the reading thread's past (one case of its own, first shard)
+    {
+        let idx = specs.len() as u64;
+        if run.want(idx) {
+            let dep: Vec<String> = fixes.iter().flat_map(|f| f.history_dep.iter().cloned()).collect();
+            run.case(idx, "fixture|sequential-answer-vs-thread-history", json!({"fixture": "D", "members_asked_after_damaged_ones": fixes.iter().find(|f| f.tag == "D").map(|f| f.names.len()).unwrap_or(0)}), |c| {
+                c.count("fixture_members_asked_on_a_thread_that_saw_failures", fixes.iter().find(|f| f.tag == "D").map(|f| f.names.len() as u64).unwrap_or(0));
+                if !dep.is_empty() {
+                    c.violate("sequential-answer-depends-on-thread-history|read_file|after-damaged-member", format!("{} intact member(s) of the damaged fixture stopped reading back on a thread that had read a damaged member before (every read with its own handle): {}", dep.len(), dep[0]), json!({"members": dep.iter().take(8).collect::<Vec<_>>(), "count": dep.len()}));
+                }
+            });
+        }
+    }
     let stop = Arc::new(AtomicBool::new(false));
     let stress = start_stress(nstress, stop.clone());
     let mut st = Stats::default();
